@@ -6,7 +6,7 @@ import EdpVerif.Impl.EqHash
 import EdpVerif.Lemmas.RoundTrip
 import EdpVerif.Lemmas.LocalSpan
 import EdpVerif.Lemmas.Convert
-import EdpVerif.Generated.Misc
+import EdpVerif.Generated.MiscC10
 import EdpVerif.Generated.Tags
 /-
 C10 — identifiers received from a peer are re-emitted byte-for-byte.
